@@ -31,7 +31,12 @@ PROP = dict(
          "inbound: 150 (4000) histories: server Topic Alias Maximum {0,1,2,5,65535}, publishes with topic in "
          "{'', x/a, x/b, x/c} and alias 0..max+1, reconnects (bindings must not survive); a spy subscribed to # "
          "records what was routed; one case per client connection.  non-trivial = an alias appears on the wire / an "
-         "alias-only publish was sent; distinct = distinct case lines",
+         "alias-only publish was sent; distinct = distinct case lines.  Unit level (pure computation on the exported "
+         "tables): OutboundTopicAliases of maximum 1/2/4 driven through 70 000 (thorough 140 000) distinct topics with "
+         "re-uses of the earliest topics every 997 calls and around call 65536 (131072); every call near the boundaries "
+         "1..max+2, 65530..65545, every re-use and every call that returned an alias is replayed by the model and judged "
+         "by the receiver check, the rest as runs answered (0,false); InboundTopicAliases.Set with 1200 random calls "
+         "(ids 1..max+1 and 65535, topics incl. '')",
     modelled="topics.go OutboundTopicAliases.Set, InboundTopicAliases.Set; server.go publishToClient (alias block and "
              "its position relative to the in-flight store and the queue), processPublish (alias resolution), "
              "packets.PublishValidate (alias rules); clients.go ResendInflightMessages / processPacket's deferred send "
